@@ -7,8 +7,22 @@ tempfile.mkdtemp() directory of the worker process, really read back with the li
 loaders, and removed again.
 
 Oracle = the arithmetic of the text format as the property states it (nothing is taken from
-the loader): same number of points, |dt' - dt| <= 0.5e-4, |v' - m v| <= |m| 0.5e-6, label
+the loader): same number of points, |dt' - dt| <= 0.5e-4, |v' - m v| <= |m| 0.5e-6 (plus the
+binary rounding of reading a decimal and of the product: half a unit in the last place of v, and
+of m v when m is not +-1 - so a double too large to have a 6th decimal comes back exactly), label
 equal when requested, returned object of exactly the requested class.
+
+Two further families of (cheap) pool cases:
+ * containers / magnitudes ("every signal", "every value sign and magnitude"): records held as float64 with
+   very large values (up to 1e22, spacing of doubles above 1e-6), float32, float16, int64, int16, uint8
+   arrays, Python lists and tuples of floats / ints - expected values are the exact doubles of the numbers
+   handed over - through the three savers and through save_signal from a Signal / AccSignal that held
+   another, longer record before (reset_values), read back by every loader call;
+ * load factors next to one and far from it (1 +- 5e-6 .. 1e-5, 1 +- 1e-7, 1e-9, 1e6) on all value words of
+   length <= 2 (large enough values for the 6th decimal to show the factor), with the default-option
+   calls repeated after the explicit ones.
+In every round trip the arguments of the saver must be left unchanged, and every array a loader returned is
+overwritten in place after it was checked (the next load of the same file must not see that).
 """
 import atexit
 import multiprocessing
@@ -22,7 +36,7 @@ import numpy as np
 
 from ..target import eqsig, loader
 from ..result import Res
-from ..compare import words, to_array
+from ..compare import words, to_array, snapshot
 
 VALUES = (0.0, 1.5, -2.25, 1e6, -1e-6, 123456.789012, 0.0000005)
 # the DESIGN.md menu plus 1.2345: the only step with more than four significant digits (a writer using
@@ -39,49 +53,57 @@ LABEL_DTS = (0.01, 1.5)
 MS = (1.0, 2.5, -1)
 SAVERS = ('save_signal:Signal', 'save_signal:AccSignal', 'save_values_and_dt')
 
+# load factors "nearly equal to one but different" and far from one; run on the value words of length <= 2
+MS_EXTRA = (1.000005, 0.99999, 1.0000001, 0.9999999, 1e-9, 1e6)
+M_MAX_LEN = 2
+# containers: name -> (constructor from the list of exact doubles, records).  Every number of a record is exactly
+# representable in the container's type (asserted below), so the double the oracle expects is the number saved.
+CONTAINERS = (
+    ('float64-huge', lambda w: np.array(w, dtype=np.float64),
+     ((3e14 + 0.7, -(7.7e12 + 0.77), 123456789012.345678, 8589934592.000001, 1e15 + 0.125, 1e22, 2.0 ** 53, 1.5),
+      (1e10 + 0.5,))),
+    ('float32', lambda w: np.array(w, dtype=np.float32),
+     tuple(tuple(float(np.float32(v)) for v in rec) for rec in
+           ((0.123456, -9.81, 123.456, -2048.123, 16777.215, 0.0, 350.2741, 1e10), (123.456,)))),
+    ('float16', lambda w: np.array(w, dtype=np.float16),
+     tuple(tuple(float(np.float16(v)) for v in rec) for rec in ((0.1, -2.25, 1000.5, 0.0, 65504.0), (0.1,)))),
+    ('int64', lambda w: np.array([int(v) for v in w], dtype=np.int64), ((0.0, 3.0, -7.0, 123456789012.0), (5.0,))),
+    ('int16', lambda w: np.array([int(v) for v in w], dtype=np.int16), ((0.0, 3.0, -7.0, 32767.0, -32768.0), (-7.0,))),
+    ('uint8', lambda w: np.array([int(v) for v in w], dtype=np.uint8), ((0.0, 3.0, 255.0), (255.0,))),
+    ('list-float', lambda w: [float(v) for v in w], ((0.0, 1.5, -2.25, 123456.789012), (1.5,))),
+    ('tuple-float', lambda w: tuple(float(v) for v in w), ((0.0, 1.5, -2.25, 123456.789012), (1.5,))),
+    ('list-int', lambda w: [int(v) for v in w], ((0.0, 3.0, -7.0), (3.0,))),
+    ('tuple-int', lambda w: tuple(int(v) for v in w), ((0.0, 3.0, -7.0), (3.0,))),
+)
+CONTAINER_OF = dict((name, make) for name, make, recs in CONTAINERS)
+CONTAINER_OF['float64'] = lambda w: np.array(w, dtype=float)
+for _name, _make, _recs in CONTAINERS:
+    for _rec in _recs:
+        assert [float(x) for x in _make(list(_rec))] == [float(v) for v in _rec], (_name, _rec)
+# savers of the container cases: the three plain ones and save_signal from an object that held another,
+# longer record before (the file describes the record the object holds when it is saved)
+SAVERS_REUSED = ('save_signal:Signal:reused', 'save_signal:AccSignal:reused')
+SCRIBBLE = -7.5                  # written into every array a loader returned, after it was checked
+
 DT_TOL = 0.5e-4 + 1e-12          # "the same time step to 4 decimals"
 V_HALF = 0.5e-6 * (1 + 1e-9)     # "the same values to 6 decimals"
-V_REL = 1e-12                    # binary rounding of the product m*v
 
 CASE_TIMEOUT = 120
 
-# ---- private scratch directory (one per process that runs cases) ----------------------------
-_DIR = None
-_DIR_PID = None
-
-
-def _cleanup():
-    global _DIR, _DIR_PID
-    if _DIR is not None and _DIR_PID == os.getpid():
-        shutil.rmtree(_DIR, ignore_errors=True)
-        _DIR = None
-        _DIR_PID = None
-
-
-def _on_term(signum, frame):
-    _cleanup()
-    os._exit(0)
-
-
-def worker_init():
-    """Pool workers never run atexit handlers: they leave either through multiprocessing's own exit
-    function (sentinel from Pool.terminate -> util.Finalize callbacks run) or are stopped with SIGTERM.
-    Both routes are hooked; atexit covers the serial and --replay paths in the main process."""
-    if multiprocessing.current_process().name != 'MainProcess':
-        try:
-            signal.signal(signal.SIGTERM, _on_term)
-        except Exception:
-            pass
-
-
+# ---- private scratch directory ------------------------------------------------------------------
+# The runner (mcheck/cli.py) creates one temporary directory per run before the pool is forked, exports it as
+# MC_RUN_TMP and removes it after the pool has been shut down; every process that runs cases uses its own
+# sub-directory of it.  (No signal handlers or finalisers in the workers: a SIGTERM handler that cleans up
+# and exits while the worker holds a multiprocessing lock can dead-lock Pool.terminate().)
 def _scratch():
-    global _DIR, _DIR_PID
-    if _DIR is None or _DIR_PID != os.getpid() or not os.path.isdir(_DIR):
-        _DIR = tempfile.mkdtemp(prefix='mc_c16_')
-        _DIR_PID = os.getpid()
-        atexit.register(_cleanup)
-        multiprocessing.util.Finalize(None, _cleanup, exitpriority=10)
-    return _DIR
+    base = os.environ.get('MC_RUN_TMP')
+    if not base or not os.path.isdir(base):
+        base = tempfile.mkdtemp(prefix='mc_c16_')
+        os.environ['MC_RUN_TMP'] = base
+        atexit.register(shutil.rmtree, base, True)
+    d = os.path.join(base, 'p%d' % os.getpid())
+    os.makedirs(d, exist_ok=True)
+    return d
 
 
 # ---- enumeration ---------------------------------------------------------------------------
@@ -99,6 +121,14 @@ def build(tier, seed):
             continue        # a label without any letter is not examined (see assumptions)
         n_lab += 1
         cases.append({'kind': 'label', 'label': lab})
+    for name, make, recs in CONTAINERS:
+        for dt in LABEL_DTS:
+            cases.append({'kind': 'container', 'container': name, 'dt': dt})
+    n_m = 0
+    for w in words(range(len(VALUES)), 1, M_MAX_LEN):
+        for dt in LABEL_DTS:
+            n_m += 1
+            cases.append({'kind': 'm', 'w': [VALUES[i] for i in w], 'dt': dt})
     return {
         'cases': cases,
         'rule': 'value cases: all value words of length 1..%d over the 7-value alphabet x %d time steps (one pool case '
@@ -108,11 +138,21 @@ def build(tier, seed):
                 'load_asig default and load_label in {F,T} x m in {1.0,2.5,-1}); non-trivial = word not identically '
                 'zero.  label cases: all %d labels of length 1..%d over {letter, blank} with at least one letter '
                 '(blanks leading, trailing, single, in runs; one pool case per label), each on %d records x %d time '
-                'steps x the 3 savers x the same 15 loader calls; non-trivial = label contains a blank'
-                % (L, len(DTS), n_lab, LL, len(LABEL_RECORDS), len(LABEL_DTS)),
+                'steps x the 3 savers x the same 15 loader calls; non-trivial = label contains a blank.  container cases: '
+                '%d containers (very large float64 values, float32, float16, int64, int16, uint8 arrays, lists and '
+                'tuples of floats / ints; one pool case per (container, dt in %s)) x 2 records each x 5 savers (the 3 '
+                'plain ones, save_signal from a Signal / AccSignal that held a longer record before) x 17 loader '
+                'calls (the 15 and the default-option load_sig / load_asig repeated at the end).  load-factor cases: '
+                'all %d (value word of length <= %d, dt) x 3 savers x load_sig / load_asig (load_label F,T) with m in '
+                '%s next to the 15 + 2 calls.  Every returned array is overwritten after its check; the saver must '
+                'leave its arguments unchanged'
+                % (L, len(DTS), n_lab, LL, len(LABEL_RECORDS), len(LABEL_DTS), len(CONTAINERS), list(LABEL_DTS),
+                   n_m, M_MAX_LEN, list(MS_EXTRA)),
         'bounds': {'values': VALUES, 'max_len': L, 'dt': DTS, 'labels': LABELS, 'm': MS, 'savers': SAVERS,
                    'label_alphabet': LABEL_ALPHABET, 'label_max_len': LL, 'label_records': LABEL_RECORDS,
-                   'label_dt': LABEL_DTS,
+                   'label_dt': LABEL_DTS, 'm_next_to_one_and_extreme': MS_EXTRA, 'm_extra_max_len': M_MAX_LEN,
+                   'containers': [[name, [list(rec) for rec in recs]] for name, make, recs in CONTAINERS],
+                   'container_dt': LABEL_DTS, 'container_savers': list(SAVERS) + list(SAVERS_REUSED),
                    'loaders': ['load_values_and_dt', 'load_signal(astype=signal)', 'load_signal(astype=acc_sig)',
                                'load_signal()', 'load_sig', 'load_asig']},
         'required_classes': ['dt>=1', 'dt<1', 'one-sample', 'multi-sample', 'label-plain', 'label-space',
@@ -120,7 +160,12 @@ def build(tier, seed):
                              'label-comma-hash', 'm-default', 'm-scaled', 'm-negative', 'value-exact',
                              'value-rounded', 'value-negative', 'value-large', 'value-below-precision',
                              'returned-Signal', 'returned-AccSignal', 'label-requested', 'label-not-requested',
-                             'saver-Signal', 'saver-AccSignal', 'saver-values'],
+                             'saver-Signal', 'saver-AccSignal', 'saver-values', 'saver-reused-object',
+                             'container-float32', 'container-float16', 'container-float64-huge', 'container-int64',
+                             'container-int16', 'container-uint8', 'container-list-float', 'container-list-int',
+                             'container-tuple-float', 'container-tuple-int', 'value-beyond-6-decimals-exact',
+                             'm-next-to-one', 'm-tiny', 'm-huge', 'm-next-to-one-visible',
+                             'default-after-explicit', 'result-overwritten', 'saver-arguments-unchanged'],
         'assumptions': ['values outside the 7-value alphabet, records longer than the bound, dt and labels outside '
                         'the menus are not examined',
                         'labels are single-line strings (the format stores the label on one line)',
@@ -129,12 +174,22 @@ def build(tier, seed):
                         'load_signal() with its default astype ("sig") is read as a request for a Signal',
                         'load_values_and_dt must return a one-dimensional array of npts values (a 0-d array has no '
                         'number of points)',
-                        'files live in a private tempfile.mkdtemp() directory per worker and are removed after use'],
+                        'files live in a private tempfile.mkdtemp() directory per worker and are removed after use',
+                        '"to 6 decimals": the file holds the value rounded to 6 decimals, reading it gives the nearest '
+                        'double, multiplying by m rounds once more: |v\' - m v| <= |m| (0.5e-6 + ulp(v)/2) + 1.5 ulp(m v) '
+                        '(last term only when m is not +-1).  A double with ulp > 1e-6 therefore loads back exactly',
+                        'a record handed over in a narrower type (float32, float16, integers, Python numbers) is the '
+                        'sequence of the exact values of its elements; nothing is assumed about the dtype the loader '
+                        'returns',
+                        'the saver leaves the array / object it is given unchanged; arrays returned by a loader belong '
+                        'to the caller (they are overwritten after the check and the file is loaded again by the next '
+                        'call)'],
     }
 
 
-def _loaders(n_m=MS):
-    """(name, extra sub fields, callable(ffp), wanted class or None, m factor, label requested)."""
+def _loaders(n_m=MS, trailing_defaults=False):
+    """(name, extra sub fields, callable(ffp), wanted class or None, m factor, label requested).
+    trailing_defaults: the default-option calls of load_sig / load_asig once more after all explicit ones."""
     out = [('load_values_and_dt', {}, lambda f: loader.load_values_and_dt(f), None, 1.0, False),
            ('load_signal', {'astype': 'signal'}, lambda f: loader.load_signal(f, astype='signal'), 'Signal', 1.0, False),
            ('load_signal', {'astype': 'acc_sig'}, lambda f: loader.load_signal(f, astype='acc_sig'), 'AccSignal', 1.0,
@@ -148,21 +203,47 @@ def _loaders(n_m=MS):
         for m in n_m:
             out.append(('load_asig', {'m': m, 'load_label': ll},
                         (lambda f, m=m, ll=ll: loader.load_asig(f, load_label=ll, m=m)), 'AccSignal', m, ll))
+    if trailing_defaults:
+        out.append(('load_sig', {'m': None, 'after': 'explicit calls'}, lambda f: loader.load_sig(f), 'Signal', 1.0, False))
+        out.append(('load_asig', {'m': None, 'load_label': None, 'after': 'explicit calls'},
+                    lambda f: loader.load_asig(f), 'AccSignal', 1.0, False))
     return out
 
 
-def _save(saver, ffp, w, dt, label):
-    vals = np.array(w, dtype=float)
-    if saver == 'save_signal:Signal':
-        loader.save_signal(ffp, eqsig.Signal(vals, dt, label=label))
-    elif saver == 'save_signal:AccSignal':
-        loader.save_signal(ffp, eqsig.AccSignal(vals, dt, label=label))
-    else:
-        loader.save_values_and_dt(ffp, vals, dt, label)
+def _state(obj):
+    """What the saver was given, as comparable bytes (array / list / tuple, or the visible state of a signal)."""
+    if isinstance(obj, eqsig.Signal):
+        return ('sig', type(obj).__name__, snapshot(obj.values), repr(obj.dt), repr(obj.label), int(obj.npts))
+    return snapshot(obj)
+
+
+def _save(saver, ffp, w, dt, label, container='float64'):
+    """Returns (state of the saver's argument before the call, after the call)."""
+    vals = CONTAINER_OF[container](w)
+    parts = saver.split(':')
+    if parts[0] == 'save_signal':
+        cls = eqsig.Signal if parts[1] == 'Signal' else eqsig.AccSignal
+        if parts[-1] == 'reused':
+            # the object held another, longer record before (and was used) and is then given this one
+            sig = cls(np.array([9.5, -9.5] * (len(w) // 2 + 2)), dt, label=label)
+            for nm in ('npts', 'time', 'velocity', 'displacement', 'pga'):
+                try:
+                    getattr(sig, nm)
+                except Exception:   # noqa
+                    pass
+            sig.reset_values(vals)
+        else:
+            sig = cls(vals, dt, label=label)
+        before = _state(sig)
+        loader.save_signal(ffp, sig)
+        return before, _state(sig)
+    before = _state(vals)
+    loader.save_values_and_dt(ffp, vals, dt, label)
+    return before, _state(vals)
 
 
 def _check_values(r, sub, got, w, m):
-    """|v' - m v| <= |m| 0.5e-6 (1+1e-9) + 1e-12 |m v| elementwise; total."""
+    """|v' - m v| <= |m| (0.5e-6 (1+1e-9) + ulp(v)/2) + 1.5 ulp(m v) [m not +-1] elementwise; total."""
     r.n_cmp += 1
     g = to_array(got)
     want = [float(m) * v for v in w]
@@ -174,7 +255,9 @@ def _check_values(r, sub, got, w, m):
     worst = 0.0
     exact = True
     for i, v in enumerate(w):
-        tol = abs(m) * V_HALF + V_REL * abs(m * v)
+        tol = abs(m) * (V_HALF + 0.5 * float(np.spacing(abs(v))))
+        if abs(m) != 1:
+            tol += 1.5 * float(np.spacing(abs(m * v)))
         gi = float(g[i])
         if not np.isfinite(gi):
             return r.fail('values', sub, 'non-finite value at index %d' % i, observed=got, expected=want)
@@ -216,21 +299,37 @@ def _label_classes(r, label):
         r.cls('label-space-run')
 
 
-def _round_trip(r, ffp, loaders, w, dt, label, saver):
+def _overwrite(r, arr):
+    """The caller owns what a loader returned: overwrite it in place (after it was checked)."""
+    try:
+        if isinstance(arr, np.ndarray) and arr.size and arr.flags.writeable:
+            arr[...] = SCRIBBLE
+            r.cls('result-overwritten')
+    except Exception:   # noqa
+        pass
+
+
+def _round_trip(r, ffp, loaders, w, dt, label, saver, container='float64'):
     """One real file: written with `saver`, read back through every loader call, removed."""
     classes = {'Signal': eqsig.Signal, 'AccSignal': eqsig.AccSignal}
     n = len(w)
-    r.cls({'save_signal:Signal': 'saver-Signal', 'save_signal:AccSignal': 'saver-AccSignal'}.get(
-        saver, 'saver-values'))
+    r.cls('saver-reused-object' if saver.endswith(':reused') else
+          {'save_signal:Signal': 'saver-Signal', 'save_signal:AccSignal': 'saver-AccSignal'}.get(saver, 'saver-values'))
     fsub = {'w': w, 'dt': dt, 'label': label, 'saver': saver}
+    if container != 'float64':
+        fsub['container'] = container
+        r.cls('container-' + container)
     r.states += 1
     try:
-        ok, _ = r.call('save', fsub, _save, saver, ffp, w, dt, label)
+        ok, st = r.call('save', fsub, _save, saver, ffp, w, dt, label, container)
         if not ok:
             return
         if not os.path.isfile(ffp):
             r.fail('save', fsub, 'saver returned without writing the file')
             return
+        r.cls('saver-arguments-unchanged')
+        r.expect('save.purity', fsub, st[0] == st[1], 'the saver modified the array / signal it was given',
+                 observed=st[1][:3], expected=st[0][:3])
         for name, extra, fn, want_cls, m, want_label in loaders:
             sub = dict(fsub, loader=name)
             sub.update(extra)
@@ -238,10 +337,16 @@ def _round_trip(r, ffp, loaders, w, dt, label, saver):
             r.transitions += 1
             if extra.get('m', 1.0) is None or name in ('load_values_and_dt', 'load_signal'):
                 r.cls('m-default')
+                if extra.get('after'):
+                    r.cls('default-after-explicit')
             elif m < 0:
                 r.cls('m-negative')
+            elif 0 < abs(m - 1.0) < 1e-4:
+                r.cls('m-next-to-one')
+                if any(abs(m - 1.0) * abs(v) > 4 * V_HALF for v in w):
+                    r.cls('m-next-to-one-visible')      # taking m for 1 would be outside the tolerance
             elif m != 1.0:
-                r.cls('m-scaled')
+                r.cls('m-tiny' if m < 1e-6 else 'm-huge' if m > 1e5 else 'm-scaled')
             ok, out = r.call('load', sub, fn, ffp)
             if not ok:
                 continue
@@ -259,6 +364,7 @@ def _round_trip(r, ffp, loaders, w, dt, label, saver):
                          'not preserved' % (shp, n), observed=vals, expected=w)
                 _check_dt(r, sub, dt2, dt)
                 _check_values(r, sub, vals, w, 1.0)
+                _overwrite(r, vals)
                 continue
             r.expect('type', sub, type(out) is classes[want_cls],
                      'returned %s, requested %s' % (type(out).__name__, want_cls),
@@ -283,6 +389,7 @@ def _round_trip(r, ffp, loaders, w, dt, label, saver):
             except Exception as e:
                 vals = repr(e)
             _check_values(r, sub, vals, w, m)
+            _overwrite(r, vals)
             if want_label:
                 r.cls('label-requested')
                 try:
@@ -309,6 +416,8 @@ def _value_classes(r, w, dt):
         r.cls('value-large')
     if any(0 < abs(v) < 1e-6 for v in w):
         r.cls('value-below-precision')
+    if any(float(np.spacing(abs(v))) > 1e-6 and v != round(v) for v in w):
+        r.cls('value-beyond-6-decimals-exact')    # a non-integer double that has no 6th decimal: comes back exactly
 
 
 def run_case(case):
@@ -327,11 +436,29 @@ def run_case(case):
                 for saver in SAVERS:
                     _round_trip(r, ffp, loaders, w, float(dt), label, saver)
         return r
+    if case.get('kind') == 'container':
+        name = case['container']
+        dt = float(case['dt'])
+        loaders = _loaders(trailing_defaults=True)
+        for rec in dict((c[0], c[2]) for c in CONTAINERS)[name]:
+            w = [float(v) for v in rec]
+            r.nontrivial += 1
+            _value_classes(r, w, dt)
+            _label_classes(r, LABELS[0])
+            for saver in SAVERS + SAVERS_REUSED:
+                _round_trip(r, ffp, loaders, w, dt, LABELS[0], saver, container=name)
+        return r
     w = [float(v) for v in case['w']]
     dt = float(case['dt'])
     if any(w):
         r.nontrivial += 1
     _value_classes(r, w, dt)
+    if case.get('kind') == 'm':
+        loaders = _loaders(n_m=MS + MS_EXTRA, trailing_defaults=True)
+        _label_classes(r, LABELS[0])
+        for saver in SAVERS:
+            _round_trip(r, ffp, loaders, w, dt, LABELS[0], saver)
+        return r
     for label in LABELS:
         _label_classes(r, label)
         for saver in SAVERS:
@@ -345,8 +472,17 @@ def snippet(case, v):
             "sub = %r\n"
             "ffp = os.path.join(tempfile.mkdtemp(), 'c.txt')\n"
             "vals = np.array(sub['w'], float)\n"
+            "c = sub.get('container', 'float64').split('-')\n"
+            "if c[0] in ('list', 'tuple'): vals = {'list': list, 'tuple': tuple}[c[0]]({'float': float, 'int': int}[c[1]](v) for v in sub['w'])\n"
+            "elif c[0] != 'float64': vals = np.array([int(v) for v in sub['w']] if 'int' in c[0] else sub['w'], dtype=c[0])\n"
             "if sub['saver'] == 'save_values_and_dt': loader.save_values_and_dt(ffp, vals, sub['dt'], sub['label'])\n"
-            "else: loader.save_signal(ffp, getattr(eqsig, sub['saver'].split(':')[1])(vals, sub['dt'], label=sub['label']))\n"
+            "else:\n"
+            "    cls = getattr(eqsig, sub['saver'].split(':')[1])\n"
+            "    sig = cls(vals, sub['dt'], label=sub['label'])\n"
+            "    if sub['saver'].endswith(':reused'):   # the object held a longer record before\n"
+            "        sig = cls(np.array([9.5, -9.5] * (len(vals) // 2 + 2)), sub['dt'], label=sub['label'])\n"
+            "        sig.time; getattr(sig, 'velocity', None); sig.reset_values(vals)\n"
+            "    loader.save_signal(ffp, sig)\n"
             "print(repr(open(ffp).read()))\n"
             "kw = {k: sub[k] for k in ('astype', 'm', 'load_label') if sub.get(k) is not None}\n"
             "out = getattr(loader, sub.get('loader', 'load_values_and_dt'))(ffp, **kw)\n"
